@@ -87,6 +87,27 @@ def numpy_to_blackbird(A, var_name):
     return script
 
 
+def _list_to_blackbird(values):
+    """Converts a list of values to a Blackbird list.
+
+    Args:
+        values (list): list of numbers, booleans and strings
+
+    Returns:
+        str: the Blackbird list, e.g. ``[1, 0.5, "a", True]``
+    """
+    items = []
+    for v in values:
+        if isinstance(v, str):
+            items.append('"{}"'.format(v))
+        elif isinstance(v, complex):
+            items.append("{}{}{}j".format(v.real, "+-"[int(v.imag < 0)], np.abs(v.imag)))
+        else:
+            items.append("{}".format(v))
+
+    return "[{}]".format(", ".join(items))
+
+
 class BlackbirdProgram:
     """Python representation of a Blackbird program."""
 
@@ -353,7 +374,9 @@ class BlackbirdProgram:
                     # the expected syntax
                     option_strings = []
                     for k, v in data["options"].items():
-                        if not isinstance(v, str):
+                        if isinstance(v, list):
+                            option_strings.append("{}={}".format(k, _list_to_blackbird(v)))
+                        elif not isinstance(v, str):
                             option_strings.append("{}={}".format(k, v))
                         else:
                             option_strings.append('{}="{}"'.format(k, v))
@@ -390,7 +413,7 @@ class BlackbirdProgram:
             if len(op["modes"]) == 1:
                 modes = op["modes"][0]
             else:
-                modes = op["modes"]
+                modes = _list_to_blackbird(op["modes"])
 
             # check if the operation has any arguments
             if "args" in op:
@@ -468,6 +491,9 @@ class BlackbirdProgram:
                         kwargs.append(
                             "{}={}{}{}j".format(k, v.real, "+-"[int(v.imag < 0)], np.abs(v.imag))
                         )
+
+                    elif isinstance(v, list):
+                        kwargs.append("{}={}".format(k, _list_to_blackbird(v)))
 
                     else:
                         kwargs.append("{}={}".format(k, v))
